@@ -5,6 +5,9 @@
 //! produced tensors and the gradient shapes are checked on enumerated configurations with symbolic values.
 
 use super::*;
+use neurons::convolution::Convolution;
+use neurons::deconvolution::Deconvolution;
+use neurons::maxpool::Maxpool;
 
 fn expected_input(prev_out: &Shape, layer: &Layer) -> Vec<usize> {
     if let Layer::Feedback(fb) = layer {
@@ -142,6 +145,67 @@ pub fn flat_case(kind: &'static str) -> Case {
     }
 }
 
+/// every configuration of the C02 lattice (kernel 1..3, stride 1..3, padding 0..2, dilation 1..2, six input sizes; flat and
+/// spatial input): the shape a single layer *produces* equals the shape it announced and the standard formula.
+/// Values are concrete ones (shapes do not depend on them), so every obligation is a fact of the execution itself.
+pub fn produced_case(kind: &'static str, full: bool) -> Case {
+    Case {
+        id: format!("C08/produced/{}", kind),
+        property: "C08",
+        family: "Network builder / forward / backward shapes",
+        class: format!("produced-{}", kind),
+        no_ties: false,
+        max_paths: 4,
+        run: Box::new(move |ctx| {
+            let lattice: Vec<Cfg> = match kind {
+                "convolution" => conv_lattice(full),
+                "deconvolution" => conv_lattice(full).into_iter().filter(|c| c.d == (1, 1) && c.deconv_out().is_some()).collect(),
+                _ => conv_lattice(full).into_iter().filter(|c| c.d == (1, 1) && c.p == (0, 0) && c.f == 1 && c.pool_out().is_some()).collect(),
+            };
+            let mut n_checked = 0usize;
+            for c in lattice.iter() {
+                let layer = match kind {
+                    "convolution" => Layer::Convolution(Convolution::create(Shape::Triple(c.ic, c.ih, c.iw), c.f, &Activation::Linear, c.k, c.s, c.p, c.d, None)),
+                    "deconvolution" => Layer::Deconvolution(Deconvolution::create(Shape::Triple(c.ic, c.ih, c.iw), c.f, &Activation::Linear, c.k, c.s, c.p, None)),
+                    _ => Layer::Maxpool(Maxpool::create(Shape::Triple(c.ic, c.ih, c.iw), c.k, c.s)),
+                };
+                let want = match kind {
+                    "convolution" => {
+                        let (h, w) = c.conv_out().unwrap();
+                        vec![c.f, h, w]
+                    }
+                    "deconvolution" => {
+                        let (h, w) = c.deconv_out().unwrap();
+                        vec![c.f, h, w]
+                    }
+                    _ => {
+                        let (h, w) = c.pool_out().unwrap();
+                        vec![c.ic, h, w]
+                    }
+                };
+                let (_, announced) = hooks::shapes(&layer);
+                let vals: V3 = (0..c.ic).map(|a| (0..c.ih).map(|b| (0..c.iw).map(|d| lit((1 + a + 2 * b + 3 * d) as f32)).collect()).collect()).collect();
+                for flat in [false, true] {
+                    let x = if flat { t1(&flat3(&vals)) } else { t3(&vals) };
+                    let r = ctx.catch(|_| layer_forward(&layer, &x));
+                    let role = format!("{}-{}", c.tag(), if flat { "flat" } else { "triple" });
+                    match r {
+                        Ok(y) => {
+                            let ok = shape_dims(&announced) == want && dims(&y) == want && shape_dims(&y.shape) == want && rectangular(&y);
+                            if !ok || n_checked < 4 {
+                                ctx.fact(&role, ok, format!("announced {:?}, produced {:?} (recorded {:?}), formula {:?}", announced, dims(&y), y.shape, want));
+                            }
+                        }
+                        Err(m) => ctx.fact(&role, false, format!("forward panicked: {}", m)),
+                    }
+                    n_checked += 1;
+                }
+            }
+            ctx.fact("configurations-checked", n_checked == 2 * lattice.len() && n_checked > 0, format!("{}", n_checked));
+        }),
+    }
+}
+
 /// Negative control: the announced shape is compared with a wrong formula.
 pub fn control_case() -> Case {
     Case {
@@ -182,6 +246,7 @@ pub fn cases(tier: Tier, _seed: u64) -> Vec<Case> {
     }
     for kind in ["convolution", "deconvolution", "maxpool"] {
         out.push(flat_case(kind));
+        out.push(produced_case(kind, full));
     }
     out.push(control_case());
     out
